@@ -49,6 +49,14 @@ type Op struct {
 	Code   int     `json:"code,omitempty"` // 0 Unset, 1 Error, 2 Ok
 	Err    int     `json:"err,omitempty"`  // 0 nil, 1 errors.New, 2 value type, 3 pointer type
 	Stack  bool    `json:"stack,omitempty"`
+	// Re-use of the caller's KVs slice OBJECT (attrs / event / error ops):
+	// Share 1: the sibling span's corresponding call gets the very same slice
+	// right after the primary call returned; Share 2: the sibling's call runs
+	// first. Again "attrs" / "event": the primary span gets a second call,
+	// SetAttributes(s...) / AddEvent("again", WithAttributes(s...)), with the
+	// same slice after the first returned.
+	Share int    `json:"share,omitempty"`
+	Again string `json:"again,omitempty"`
 }
 
 // Case is one generated program.
@@ -62,6 +70,10 @@ type Case struct {
 	SamplerAttrs []vk.KV `json:"sampler_attrs,omitempty"`
 	StartLinks   []LinkD `json:"start_links,omitempty"`
 	Ops          []Op    `json:"ops"`
+	// A sibling span of a second TracerProvider with its own limits; it
+	// receives the ops marked Share (same slice objects as the primary).
+	HasSib bool   `json:"has_sib,omitempty"`
+	Sib    Limits `json:"sib"`
 }
 
 var limitValues = []int{-1, 0, 0, 1, 1, 2, 2, 3, 3, 5, 5, 128}
@@ -157,7 +169,19 @@ func genTS(t *rapid.T) int64 {
 	}
 }
 
-func genOp(t *rapid.T, o vk.KVOpts, idx int, heavy bool, allowEnd bool) Op {
+func genOp(t *rapid.T, o vk.KVOpts, idx int, heavy bool, allowEnd bool, hasSib bool) Op {
+	op := genOp1(t, o, idx, heavy, allowEnd)
+	switch op.Op {
+	case "attrs", "event", "error":
+		if hasSib {
+			op.Share = rapid.SampledFrom([]int{0, 0, 1, 1, 2}).Draw(t, "share")
+		}
+		op.Again = rapid.SampledFrom([]string{"", "", "", "", "", "attrs", "event"}).Draw(t, "again")
+	}
+	return op
+}
+
+func genOp1(t *rapid.T, o vk.KVOpts, idx int, heavy bool, allowEnd bool) Op {
 	kinds := []string{"attrs", "attrs", "attrs", "attrs", "attrs", "event", "event", "event", "link", "link", "error", "error", "status", "status", "name"}
 	if heavy {
 		for i := 0; i < 60; i++ {
@@ -242,6 +266,18 @@ func gen(t *rapid.T) Case {
 	case 1, 2:
 		o.Keys = largeKeys[:12]
 	}
+	// Sibling provider: mostly unlimited or larger than the primary's limits.
+	if rapid.Bool().Draw(t, "hassib") {
+		c.HasSib = true
+		c.Sib = Limits{
+			ValueLen: rapid.SampledFrom([]int{-1, -1, -1, 128, 5, 3, 1, 0}).Draw(t, "sib_value_len"),
+			Attrs:    rapid.SampledFrom([]int{-1, -1, 128, 5, 2, 0}).Draw(t, "sib_attrs"),
+			Events:   rapid.SampledFrom([]int{-1, -1, 128, 3, 0}).Draw(t, "sib_events"),
+			Links:    -1,
+			PerEvent: rapid.SampledFrom([]int{-1, -1, 128, 2}).Draw(t, "sib_per_event"),
+			PerLink:  -1,
+		}
+	}
 	c.Name = vk.GenText(4, true).Draw(t, "spanname")
 	c.Kind = rapid.IntRange(0, 5).Draw(t, "kind")
 	if rapid.IntRange(0, 3).Draw(t, "hasstartts") == 0 {
@@ -265,7 +301,7 @@ func gen(t *rapid.T) Case {
 		pre = rapid.IntRange(18, 34).Draw(t, "heavypre")
 	}
 	for i := 0; i < pre; i++ {
-		c.Ops = append(c.Ops, genOp(t, o, i, heavy, false))
+		c.Ops = append(c.Ops, genOp(t, o, i, heavy, false, c.HasSib))
 	}
 	// An explicit End (otherwise the runner ends the span after the last
 	// call), followed by calls that must change nothing.
@@ -277,7 +313,7 @@ func gen(t *rapid.T) Case {
 		c.Ops = append(c.Ops, end)
 		post := rapid.SampledFrom([]int{0, 0, 1, 1, 2, 3, 5}).Draw(t, "post")
 		for i := 0; i < post; i++ {
-			c.Ops = append(c.Ops, genOp(t, o, pre+1+i, false, true))
+			c.Ops = append(c.Ops, genOp(t, o, pre+1+i, false, true, c.HasSib))
 		}
 	}
 	return c
